@@ -444,12 +444,16 @@ func (srv *c10UDPServer) stop() bool {
 type c10Sched struct {
 	mu    sync.Mutex
 	order []int
+	log   *os.File // udpemp: runs (child process): every datagram is written here BEFORE it is sent
 }
 
 func (p *c10Peer) send(sc *c10Sched, dst *net.UDPAddr, s *c10Send) {
 	sc.mu.Lock()
 	sc.order = append(sc.order, p.idx)
 	p.sends = append(p.sends, s)
+	if sc.log != nil {
+		fmt.Fprintf(sc.log, "%d %s\n", p.idx, s.coqDg())
+	}
 	_, err := p.conn.WriteToUDP(s.data, dst)
 	sc.mu.Unlock()
 	if err != nil {
@@ -532,6 +536,7 @@ type c10UDPParams struct {
 	maxsize int
 	wild    bool
 	flood   bool // round 4 (udpopt: cases): the adversaries send messages made of long runs of small options
+	empty   bool // round 5 (udpemp: cases): the adversaries send messages with code 0.00 that are not empty (c10_empty.go)
 }
 
 func (q c10UDPParams) desc() string {
@@ -539,16 +544,20 @@ func (q c10UDPParams) desc() string {
 	if q.flood {
 		fam = "udpopt"
 	}
+	if q.empty {
+		fam = "udpemp"
+	}
 	return fmt.Sprintf("%s:%d:%d:%d:%d:%d:%d:%s", fam, q.seed, q.good, q.bad, q.nreq, q.nbad, q.maxsize, coqBool(q.wild))
 }
 
 func parseC10UDP(s string) (c10UDPParams, bool) {
 	f := strings.Split(s, ":")
-	if len(f) != 8 || (f[0] != "udp" && f[0] != "udpopt") {
+	if len(f) != 8 || (f[0] != "udp" && f[0] != "udpopt" && f[0] != "udpemp") {
 		return c10UDPParams{}, false
 	}
 	var q c10UDPParams
 	q.flood = f[0] == "udpopt"
+	q.empty = f[0] == "udpemp"
 	q.seed, _ = strconv.ParseUint(f[1], 10, 64)
 	q.good, _ = strconv.Atoi(f[2])
 	q.bad, _ = strconv.Atoi(f[3])
@@ -565,7 +574,8 @@ type c10UDPResult struct {
 	clean    bool // no watchdog fired
 	errDgram int
 	classes  map[string]int
-	cost     int // evaluation weight of long option runs
+	cost     int  // evaluation weight of long option runs
+	crashed  bool // udpemp: runs: the child process died; coq is a ProcCrash case
 }
 
 func c10RunUDP(q c10UDPParams) (c10UDPResult, error) {
@@ -606,6 +616,8 @@ func c10RunUDP(q c10UDPParams) (c10UDPResult, error) {
 				if q.flood && !r.Chance(20) {
 					w := c10ManyOptions(r, false, maxsize, 11)
 					sd, cls = &c10Send{data: w.bytes(), pre: w.pre, repB: w.b, repN: w.n, post: w.post}, w.kind
+				} else if q.empty && !r.Chance(25) {
+					sd, cls = c10EmptyCode(r, firstTok)
 				} else {
 					sd, cls = c10Malformed(r, maxsize, firstTok)
 				}
@@ -616,7 +628,7 @@ func c10RunUDP(q c10UDPParams) (c10UDPResult, error) {
 		}
 		peers = append(peers, p)
 	}
-	sc := &c10Sched{}
+	sc := &c10Sched{log: c10ChildLog}
 	var wg sync.WaitGroup
 	for _, p := range peers {
 		wg.Add(1)
@@ -694,8 +706,12 @@ func runC10(a runArgs) error {
 	e := NewEmitter("C10", "Server.Run")
 	e.Preamble = "From GoCoap Require Import Base.Bytes Dedup.Model Dedup.Spec Server.Model Server.Spec.\nFrom GoCoap Require Monitor.Model Server.KeepAlive.\nFrom GoCoap Require Import Server.Addr."
 	e.ShardSize = 24
-	e.Rule = "a case is one run of a real server on loopback sockets (udp.NewServer + mux router): 2-4 well-behaved raw-socket clients run scripted CON/NON GET/POST/PUT/DELETE sequences (distinct tokens and payload tags, some retransmissions) while 1-4 adversarial peers send malformed datagrams (truncated header, bad version, TKL 9-15, truncated token/option, nibble 15, option number overflow, marker without payload, random bytes), oversize datagrams, unsolicited ACK/RST/responses and valid requests reusing a good client's token, each burst followed by a ping whose Reset is awaited. Non-trivial = at least two well-behaved clients and at least one datagram the server refused. Handshake families (tls:/dtls: cases): tcp server on a TLS listener (self-signed ECDSA certificate made at run time) and dtls server with PSK; 1-2 well-behaved clients connect and get half of their answers, then 2-5 adversarial peers connect one after the other (send nothing / 3 bytes of a ClientHello / garbage / close at once / full handshake then silence; DTLS: ClientHello never followed up, garbage behind a handshake record header, ClientHello then socket closed, datagram the accept filter drops), then 1-3 more well-behaved clients connect; every run has a peer that never finishes its handshake; all such cases count as non-trivial. Round-2 families: discf: cases = discovery runs in which some DiscoveryRequest calls cannot send their datagram (IPv6 destination on an IPv4 socket, datagram above the UDP limit to a unicast address or a multicast group), followed with preference by responses carrying the same token and by new requests with it (non-trivial = at least one such call); ka: cases = udp/tcp servers with options.WithKeepAlive and 2-4 peers (answering pings, connect-and-stall, chatty, late) on a virtual clock, each peer observed with the others and alone (non-trivial = at least one ping sent and at least one peer dropped by keep-alive). Round-3 families (the keys of the two tables): keyrep: cases = getConnKey and the wildcard helpers on address pairs whose IPv4 addresses come as 4 bytes or as 16 bytes, nil / unspecified / multicast / IPv6 / zones included (non-trivial = the two pairs are the same pair in two representations); rep: cases = a live udp server bound to 127.0.0.1, 2-3 peers on AF_INET sockets sending requests, the application calling Server.NewConn with the peer address from the socket, from net.ResolveUDPAddr or from net.IPv4() (with or without the local address in either form) and sending requests over the connection returned, which the peer answers (non-trivial = at least one look-up with a 16-byte IP); tokkey: cases = Token.Hash() of tokens, among them families that differ only in zero bytes in front; disctok: cases = discovery runs whose token pool is one byte string with 0, 1, 2 and 8-len zero bytes in front (plus 00, 00 00 and, for responses, the empty token). Round-4 families (the decode loop of a pooled message): pool: cases = 4-7 received messages (runs of 8..2^11+8, thorough 2^12+8, one-byte options with delta 1/2/0 and length 0, around the powers of two, optionally behind Uri-Path and followed by a payload, a truncated option or a reserved nibble; plain requests; the malformed classes above) handed to UnmarshalWithDecoder of one pooled message (Reset in between, sometimes a new message) through a decoder that wraps the real udp/tcp coder, records cap(m.Options) at every attempt and cuts the loop after len+4 attempts (non-trivial = at least one message needed more than one attempt); udpopt:/tcpopt: cases = the live udp/tcp servers of the udp:/tcp: cases with adversaries that send such messages; burst: cases = a live udp server with ReceivedMessageQueueSize 1, 4, 16 (default) or 32 and 1-3 peers that send, interleaved and back to back, more NON requests than the queue holds (some peers fewer) while the handler of the very first request is held until the read loop is seen waiting inside Conn.Process or the socket is seen drained; observed per remote address: the order in which its requests reached the application."
+	e.Rule = "a case is one run of a real server on loopback sockets (udp.NewServer + mux router): 2-4 well-behaved raw-socket clients run scripted CON/NON GET/POST/PUT/DELETE sequences (distinct tokens and payload tags, some retransmissions) while 1-4 adversarial peers send malformed datagrams (truncated header, bad version, TKL 9-15, truncated token/option, nibble 15, option number overflow, marker without payload, random bytes), oversize datagrams, unsolicited ACK/RST/responses and valid requests reusing a good client's token, each burst followed by a ping whose Reset is awaited. Non-trivial = at least two well-behaved clients and at least one datagram the server refused. Handshake families (tls:/dtls: cases): tcp server on a TLS listener (self-signed ECDSA certificate made at run time) and dtls server with PSK; 1-2 well-behaved clients connect and get half of their answers, then 2-5 adversarial peers connect one after the other (send nothing / 3 bytes of a ClientHello / garbage / close at once / full handshake then silence; DTLS: ClientHello never followed up, garbage behind a handshake record header, ClientHello then socket closed, datagram the accept filter drops), then 1-3 more well-behaved clients connect; every run has a peer that never finishes its handshake; all such cases count as non-trivial. Round-2 families: discf: cases = discovery runs in which some DiscoveryRequest calls cannot send their datagram (IPv6 destination on an IPv4 socket, datagram above the UDP limit to a unicast address or a multicast group), followed with preference by responses carrying the same token and by new requests with it (non-trivial = at least one such call); ka: cases = udp/tcp servers with options.WithKeepAlive and 2-4 peers (answering pings, connect-and-stall, chatty, late) on a virtual clock, each peer observed with the others and alone (non-trivial = at least one ping sent and at least one peer dropped by keep-alive). Round-3 families (the keys of the two tables): keyrep: cases = getConnKey and the wildcard helpers on address pairs whose IPv4 addresses come as 4 bytes or as 16 bytes, nil / unspecified / multicast / IPv6 / zones included (non-trivial = the two pairs are the same pair in two representations); rep: cases = a live udp server bound to 127.0.0.1, 2-3 peers on AF_INET sockets sending requests, the application calling Server.NewConn with the peer address from the socket, from net.ResolveUDPAddr or from net.IPv4() (with or without the local address in either form) and sending requests over the connection returned, which the peer answers (non-trivial = at least one look-up with a 16-byte IP); tokkey: cases = Token.Hash() of tokens, among them families that differ only in zero bytes in front; disctok: cases = discovery runs whose token pool is one byte string with 0, 1, 2 and 8-len zero bytes in front (plus 00, 00 00 and, for responses, the empty token). Round-4 families (the decode loop of a pooled message): pool: cases = 4-7 received messages (runs of 8..2^11+8, thorough 2^12+8, one-byte options with delta 1/2/0 and length 0, around the powers of two, optionally behind Uri-Path and followed by a payload, a truncated option or a reserved nibble; plain requests; the malformed classes above) handed to UnmarshalWithDecoder of one pooled message (Reset in between, sometimes a new message) through a decoder that wraps the real udp/tcp coder, records cap(m.Options) at every attempt and cuts the loop after len+4 attempts (non-trivial = at least one message needed more than one attempt); udpopt:/tcpopt: cases = the live udp/tcp servers of the udp:/tcp: cases with adversaries that send such messages; burst: cases = a live udp server with ReceivedMessageQueueSize 1, 4, 16 (default) or 32 and 1-3 peers that send, interleaved and back to back, more NON requests than the queue holds (some peers fewer) while the handler of the very first request is held until the read loop is seen waiting inside Conn.Process or the socket is seen drained; observed per remote address: the order in which its requests reached the application. Round-5 families (c10_empty.go): udpemp: cases = the live udp runs with adversaries that send messages with code 0.00 that are not empty (a token of 1-8 bytes, in some the token of a well-behaved client, options, a payload; CON/NON/ACK/RST), the server living in a child process whose death is an observation (ProcCrash); poolpath: cases = 8-16 datagrams (such messages, requests, pings, empty ACK/RST, malformed ones, one above MaxMessageSize) handed one after the other to Conn.Process of one connection over an in-memory session, each followed by two barrier requests; observed: the trace of the message pool's lifecycle hook (releases and re-acquisitions by message identity)."
 	rng := NewRng(a.seed)
+	if c10IsChild() {
+		// round 5: this process is the child of a udpemp: run (c10_empty.go); it emits nothing
+		return c10ChildMain(a)
+	}
 	if v, err := strconv.Atoi(os.Getenv("HX_C10_HS_RUNS")); err == nil && v > 0 && a.only == "" {
 		// development aid: stress the handshake families alone
 		if err := c10HsFamily(e, a, v); err != nil {
@@ -715,6 +731,49 @@ func runC10(a runArgs) error {
 		}
 		if err := c10BurstFamily(e, a, m); err != nil {
 			return err
+		}
+	}
+	// round 5: poolpath: runs (c10_empty.go), each in a process of its own
+	{
+		var seeds []uint64
+		if strings.HasPrefix(a.only, "poolpath:") {
+			sd, _ := strconv.ParseUint(strings.TrimPrefix(a.only, "poolpath:"), 10, 64)
+			seeds = append(seeds, sd)
+		} else if a.only == "" {
+			prng := NewRng(a.seed ^ 0xC10B0071)
+			n := 6
+			if a.tier == "thorough" {
+				n = 48
+			}
+			for i := 0; i < n; i++ {
+				seeds = append(seeds, prng.U64()%1000000007)
+			}
+		}
+		for _, sd := range seeds {
+			desc := fmt.Sprintf("poolpath:%d", sd)
+			var res c10UDPResult
+			var err error
+			for attempt := 0; attempt < 3; attempt++ {
+				res, err = c10RunInChild(a, desc, c10PoolPathMax)
+				if err != nil {
+					return err
+				}
+				if res.crashed || res.clean || !c10TraceDisciplined(res.coq) {
+					break
+				}
+				e.Hist["poolpath-barrier-late"]++
+			}
+			if res.crashed {
+				e.Hist["poolpath-process-died"]++
+				e.Add(res.coq, desc, true, "poolpath-run")
+				return e.Flush(a.out)
+			}
+			// a run in which a barrier did not come back in time (three times) is emitted with the windows that are
+			// complete: late barriers cannot create a deviation
+			e.Add(res.coq, desc, true, "poolpath-run")
+			if !c10TraceDisciplined(res.coq) {
+				e.Hist["poolpath-release-of-a-pooled-message"]++
+			}
 		}
 	}
 	runs := 24
@@ -750,14 +809,34 @@ func runC10(a runArgs) error {
 			plan = append(plan, c10UDPParams{seed: frng.U64() % 1000000007, good: 2 + frng.Intn(2), bad: 1 + frng.Intn(2), nreq: 4 + frng.Intn(4), nbad: 3 + frng.Intn(4),
 				maxsize: frng.Pick([]int{0, 4096, 1152}), flood: true})
 		}
+		// round 5: udpemp: runs (each in a process of its own), parameters from a generator of their own
+		erng := NewRng(a.seed ^ 0xC10E0000)
+		n = 4
+		if a.tier == "thorough" {
+			n = 24
+		}
+		for i := 0; i < n; i++ {
+			plan = append(plan, c10UDPParams{seed: erng.U64() % 1000000007, good: 2 + erng.Intn(2), bad: 1 + erng.Intn(3), nreq: 8 + erng.Intn(8), nbad: 20 + erng.Intn(20),
+				maxsize: erng.Pick([]int{0, 0, 1152}), empty: true})
+		}
 	}
 	for _, q := range plan {
 		var res c10UDPResult
 		var err error
 		for attempt := 0; attempt < 2; attempt++ {
-			res, err = c10RunUDP(q)
+			if q.empty {
+				res, err = c10RunUDPInChild(a, q)
+			} else {
+				res, err = c10RunUDP(q)
+			}
 			if err != nil {
 				return err
+			}
+			if res.crashed {
+				// the process that ran the server died: that is the observation
+				e.Hist["udpemp-process-died"]++
+				e.Add(res.coq, q.desc(), true, "udpemp-run")
+				return e.Flush(a.out)
 			}
 			if res.clean || !res.alive {
 				break
@@ -776,7 +855,10 @@ func runC10(a runArgs) error {
 		if q.flood {
 			fam = "udpopt-run"
 		}
-		e.AddW(res.coq, q.desc(), q.good >= 2 && (res.errDgram > 0 || q.flood), 1+len(res.coq)/4000+res.cost, fam)
+		if q.empty {
+			fam = "udpemp-run"
+		}
+		e.AddW(res.coq, q.desc(), q.good >= 2 && (res.errDgram > 0 || q.flood || q.empty), 1+len(res.coq)/4000+res.cost, fam)
 		if !res.alive || !res.clean {
 			// Serve returned, or an awaited datagram did not come in two attempts: the deviation is
 			// established by this case, do not sit out the watchdogs of the remaining runs
